@@ -181,5 +181,49 @@ def copyAssign (v rhs : Vec α) : Option (Vec α) :=
       overwrite v1 0 (rhs.items.take v.items.length)
   else overwrite v 0 rhs.items
 
+/-- `insert(thePosition, theCount, (*this)[i])` after the repair `proposed/C20-vector-alias.diff`:
+a value that lives inside the vector is copied before anything moves. -/
+def insertNSelf (v : Vec α) (pos n i : Nat) : Option (Vec α) :=
+  match v.items[i]? with
+  | none => none
+  | some x => insertN v pos n x
+
+/-- `resize(theSize, (*this)[i])` after the same repair. -/
+def resizeSelf (v : Vec α) (n i : Nat) : Option (Vec α) :=
+  match v.items[i]? with
+  | none => none
+  | some x => resize v n x
+
+/-- `push_back((*this)[i])` (`grow` copies the vector and pushes the value into the copy before the
+old buffer is released, so the unrepaired code is already alias-safe here). -/
+def pushBackSelf (v : Vec α) (i : Nat) : Option (Vec α) :=
+  match v.items[i]? with
+  | none => none
+  | some x => pushBack v x
+
+/-- `insert(thePosition, theCount, (*this)[i])` **as written in the unrepaired source**: `theData`
+is a reference into the buffer.  Appending re-allocates under it (`none`: read of freed memory);
+the in-place path whose inserted range stays inside the old contents reads it after
+`copy_backward` has shifted the cells. -/
+def insertNAliasAsWritten (v : Vec α) (pos n i : Nat) : Option (Vec α) :=
+  match v.items[i]? with
+  | none => none
+  | some x =>
+    if pos > v.items.length then none
+    else
+      let total := v.items.length + n
+      if pos = v.items.length then
+        if total > v.alloc ∧ n > 0 then none else insertN v pos n x
+      else if total > v.alloc then insertN v pos n x
+      else
+        let rs := v.items.length - pos
+        if rs ≤ n then insertN v pos n x
+        else
+          (pushAll true (v.items.drop (v.items.length - n)) v).bind fun v1 =>
+          (overwrite v1 (pos + n) ((v.items.drop pos).take (v.items.length - n - pos))).bind fun v2 =>
+          match v2.items[i]? with
+          | none => none
+          | some y => overwrite v2 pos (List.replicate n y)
+
 end Vec
 end XalanModel.Containers
